@@ -27,7 +27,7 @@ ASSUMPTIONS = [
     'vf/shims/portion.py (integer interval sets, self-tested) stands in for the portion package',
 ]
 DECIDING = ['bp.app.fragment:Fragment._reassemble', 'bp.agent:Agent.recv_bundle']
-REQUIRED_OBS = ['arrivals', 'deliveries_due', 'deliveries_seen', 'duplicates_injected', 'interleaved_histories', 'overlapping_sets']
+REQUIRED_OBS = ['arrivals', 'deliveries_due', 'deliveries_seen', 'duplicates_injected', 'interleaved_histories', 'overlapping_sets', 'signed_histories', 'burst_histories', 'whole_adu_histories', 'damaged_copies_injected']
 
 NODE = 'dtn://me/'
 DEST = 'dtn://me/app'
